@@ -22,7 +22,13 @@ class C17(Check):
             "exported to BIND text, re-read, compared field by field and cross signed/verified; the same calls (HashName, "
             "Match/Cover, KeyTag, ToDS, ValidityPeriod, Verify, key text) made from 16-24 goroutines at once behind a start "
             "barrier, with inputs of very different cost, every single result compared with the RFC value computed "
-            "beforehand. Model cases: the same "
+            "beforehand; every DNSKEY flags value (all 2^16 through KeyTag/ToDS/text, a spread incl. 256, 257, 384, "
+            "385, 0x8100, 0xFFFF through export / re-read / Sign / Verify with Ed25519, ECDSA and RSA keys: zone keys "
+            "verify whatever the other bits, keys without the ZONE bit never do); fixed RSA key pairs of 1024..4096 "
+            "bits x algorithms 5/7/8/10 re-read through NewPrivateKey / ReadPrivateKey (plain and chunked readers), "
+            "exported again, signing and verifying; key text with lines of 0..1400 and up to 2^20 characters (values, "
+            "field names, comments, BIND timing lines, unknown fields) read back as the same fields / the same key. "
+            "Model cases: the same "
             "inputs evaluated by the Coq model (with SHA-1/SHA-256 executed inside Coq) and compared with the "
             "implementation's outputs; key decoders and the key-file lexer through hooks. A case is non-trivial when "
             "its output is not the rejection value; distinct by hash of (function, arguments, output).")
